@@ -77,7 +77,7 @@ def make_models(m, kind, rng):
         return EM(), EM()
     if kind == 'bias':
         # "a non-positive element disables the effect for the corresponding axis": disabled axes are spelled 0 and -1 / -2.5
-        return (EM(bias_sd=1e-4, noise=[1e-5, -1.0, 1e-5]), EM(bias_sd=[1e-2, -2.5, 1e-2], noise=[1e-3, 1e-3, -1.0], bias_walk=[1e-5, 0, 0]))
+        return (EM(bias_sd=1e-4, noise=[1e-5, -1.0, 1e-5]), EM(bias_sd=[1e-2, -2.5, 1e-2], noise=[1e-3, 1e-3, -1.0], bias_walk=[0, 0, 1e-5]))     # the walk-driven bias is NOT the first bias state
     if kind == 'asym':      # an asymmetric scale/misalignment pattern (upper triangle; a single off-diagonal element)
         return (EM(bias_sd=1e-4, noise=1e-5, scale_misal_sd=[[1e-3, 1e-3, 1e-3], [0, 1e-3, 1e-3], [0, 0, 1e-3]]),
                 EM(bias_sd=[1e-2, 0, 1e-2], noise=1e-3, scale_misal_sd=[[0, 0, 0], [0, 0, 1e-3], [0, 0, 0]]))
